@@ -374,10 +374,16 @@ func (r *Run) finish() int {
 	r.mu.Unlock()
 
 	short := []string{}
+	fl := map[string]any{}
 	for _, f := range r.floors {
-		if got := f.get(); got < f.min {
+		got := f.get()
+		fl[f.name] = map[string]int64{"required": f.min, "observed": got}
+		if got < f.min {
 			short = append(short, fmt.Sprintf("%s=%d<%d", f.name, got, f.min))
 		}
+	}
+	if len(fl) > 0 {
+		cov["coverage_floors"] = fl // a run that observed less than "required" is inconclusive (exit 2), never a pass
 	}
 	if len(short) > 0 {
 		cov["coverage_floor_missed"] = short
